@@ -253,3 +253,31 @@ func SoloKey(r *Result) string {
 	sort.Strings(ks)
 	return strings.Join(ks, "|")
 }
+
+// SoloNarrowScripts is the small per-round menu used for the deeper rounds of the
+// quick tier: the inputs that take, keep or (wrongly) give up a lock - a proposal,
+// a full polka for either block or none - and, for r > 0, the same preceded by the
+// late completion of a polka of every earlier round q < r for either block.
+func SoloNarrowScripts(r int64) [][]SoloStep {
+	mk := func(p, v string) []SoloStep {
+		var s []SoloStep
+		if p != "" {
+			s = append(s, SoloStep{Kind: "proposal", Round: r, Arg: p})
+		}
+		if v != "---" {
+			s = append(s, SoloStep{Kind: "prevotes", Round: r, Arg: v})
+		}
+		// the others precommit nil, so that the round ends whatever the node did
+		return append(s, SoloStep{Kind: "timeout", Round: r, Arg: "1"}, SoloStep{Kind: "precommits", Round: r, Arg: "NNN"}, SoloStep{Kind: "timeout", Round: r, Arg: "2"}, SoloStep{Kind: "timeout", Round: r, Arg: "3"})
+	}
+	idle, propA, propB := mk("", "---"), mk("A", "---"), mk("B", "---")
+	out := [][]SoloStep{idle, propA, propB, mk("A", "AAA"), mk("B", "BBB")}
+	for q := int64(0); q < r; q++ {
+		for _, v := range []string{"AAA", "BBB"} {
+			for _, sc := range [][]SoloStep{idle, propA, propB} {
+				out = append(out, append([]SoloStep{{Kind: "prevotes", Round: q, Arg: v}}, sc...))
+			}
+		}
+	}
+	return out
+}
